@@ -150,6 +150,11 @@ def run(tier):
                 c.violation(key, "%s -> %s (exception %r, returned %r)" % (p["label"], detail, t["exc"], t["ret"]),
                             {"call": p["label"], "detail": detail, "exception": t["exc"], "library_events": t["events"], "returned": t["ret"],
                              "crashed": res[i]["crashed"]})
+            elif res[i]["crashed"] and t["exc"] != "crash":
+                name = p["call"].get("name") or p["call"].get("kind")
+                c.violation("call:%s:interpreter-died-after-return" % name,
+                            "%s returned, then the interpreter died: %s" % (p["label"], res[i]["crashed"]),
+                            {"call": p["label"], "crashed": res[i]["crashed"], "returned": t["ret"]})
             else:
                 c.count(1, [p["label"]])
         for i, k in enumerate(controls):
